@@ -186,7 +186,25 @@ def classify_failure(world, calls, ex, why):
         return "deadlock"
     a = ex.alpha
     cfg = world.cfg
-    # a store_object that returned normally but whose pid now names a missing object
+    dangling = {c for c in a["pidrefs"].values() if c not in a["objects"]}
+    # (1) a store_object whose pid ends up naming a missing object: classified by WHEN the object was removed
+    #     relative to that call's data stage (existence probe / move into place) and its tagging
+    for ti, (op, o) in enumerate(zip(calls, ex.outcomes)):
+        if op["op"] != "store" or o == ("err", IN_PROGRESS):
+            continue
+        cid = cfg.digest(world.contents[op["c"]])
+        if cid not in dangling or not op.get("pid") or a["pidrefs"].get(cfg.H(op["pid"])) != cid:
+            continue      # only a store whose OWN pid is left naming the missing object
+        ph = _stale_probe_phase(world, ti, ex, cid)
+        if ph:
+            phase, tr = ph
+            rop = calls[tr] if tr is not None and tr < len(calls) else {}
+            who = ("dii" if rop.get("op") == "dii" else
+                   "delete-of-the-same-pid" if rop.get("op") == "delete" and rop.get("pid") == op.get("pid") else
+                   "delete-of-another-pid" if rop.get("op") == "delete" else str(rop.get("op")))
+            return f"object-removed-{phase}/by-{who}"
+    # (2) a store_object that returned normally but whose pid now names a missing object (no event log, or
+    #     another mechanism)
     for ti, (op, o) in enumerate(zip(calls, ex.outcomes)):
         if op["op"] == "store" and op.get("pid") and o[0] == "ok":
             cid = a["pidrefs"].get(cfg.H(op["pid"]))
@@ -209,16 +227,45 @@ def classify_failure(world, calls, ex, why):
     return "outcome-state-combination-unreachable"
 
 
+def _fs_events(ex):
+    for n, e in enumerate(ex.log):
+        if len(e) >= 4 and e[1] == "fs":
+            yield n, e[0], e[2], e[3]
+
+
+def _stale_probe_phase(world, ti, ex, cid):
+    """For the store_object thread ti whose pid is left naming the missing object `cid`: when the object left
+    its permanent address relative to that thread's DATA STAGE (its existence probe of / its move into the
+    address) and its TAGGING (its operations under refs/):
+    between-data-stage-and-tagging | during-tagging | after-tagging | before-data-stage.  None without a log."""
+    objrel = world.cfg.obj_rel(cid)
+    data = removed = remover = refs_first = refs_last = None
+    for n, t, kind, paths in _fs_events(ex):
+        if t == ti and paths and ((kind == "stat" and paths[0] == objrel) or
+                                  (kind in ("rename", "replace") and paths[-1] == objrel)):
+            data = n
+        if kind in ("rename", "replace", "remove", "unlink") and paths and paths[0] == objrel:
+            removed, remover = n, t
+        if t == ti and paths and paths[-1].startswith("refs" + os.sep):
+            if refs_first is None:
+                refs_first = n
+            refs_last = n
+    if data is None or removed is None:
+        return None
+    if removed < data:
+        return "before-data-stage", remover
+    if refs_first is None or removed < refs_first:
+        return "between-data-stage-and-tagging", remover
+    return ("after-tagging" if removed > refs_last else "during-tagging"), remover
+
+
 def removal_phase(world, ti, ex, cid):
     """When, relative to the storing thread's tagging (its mutating operations under refs/), the
     object left its permanent address: before-tagging | during-tagging | after-tagging | unknown."""
     objrel = world.cfg.obj_rel(cid)
     removed = None
     tag_first = tag_last = None
-    for n, e in enumerate(ex.log):
-        if len(e) < 4 or e[1] != "fs":
-            continue
-        t, kind, paths = e[0], e[2], e[3]
+    for n, t, kind, paths in _fs_events(ex):
         if kind in ("rename", "replace", "remove", "unlink") and paths and paths[0] == objrel and removed is None:
             removed = n
         if t == ti and paths and paths[-1].startswith("refs" + os.sep) and kind not in ("stat", "lstat", "open:r", "os.open:r",
